@@ -35,30 +35,35 @@ package bed
 
 //@ func parseBed3
 //@   property C03 C04
+//@   assert call strconv.ParseInt :: arg1 == 10
 //@   assigns fresh, splitCount(0)
 //@   ensures [parsed] splitCount(0) > old(splitCount(0))
 //@   ensures [value-or-error] b != nil || err != nil
 //@   ensures [error-ptr] err != nil && typeis(err, *csv.ParseError) ==> ref(err) != 0
 //@ func parseBed4
 //@   property C03 C04
+//@   assert call strconv.ParseInt :: arg1 == 10
 //@   assigns fresh, splitCount(0)
 //@   ensures [parsed] splitCount(0) > old(splitCount(0))
 //@   ensures [value-or-error] b != nil || err != nil
 //@   ensures [error-ptr] err != nil && typeis(err, *csv.ParseError) ==> ref(err) != 0
 //@ func parseBed5
 //@   property C03 C04
+//@   assert call strconv.ParseInt :: arg1 == 10
 //@   assigns fresh, splitCount(0)
 //@   ensures [parsed] splitCount(0) > old(splitCount(0))
 //@   ensures [value-or-error] b != nil || err != nil
 //@   ensures [error-ptr] err != nil && typeis(err, *csv.ParseError) ==> ref(err) != 0
 //@ func parseBed6
 //@   property C03 C04
+//@   assert call strconv.ParseInt :: arg1 == 10
 //@   assigns fresh, splitCount(0)
 //@   ensures [parsed] splitCount(0) > old(splitCount(0))
 //@   ensures [value-or-error] b != nil || err != nil
 //@   ensures [error-ptr] err != nil && typeis(err, *csv.ParseError) ==> ref(err) != 0
 //@ func parseBed12
 //@   property C03 C04
+//@   assert call strconv.ParseInt :: arg1 == 10
 //@   assigns fresh, splitCount(0)
 //@   ensures [parsed] splitCount(0) > old(splitCount(0))
 //@   ensures [value-or-error] b != nil || err != nil
